@@ -311,6 +311,7 @@ func runWc(c *Ctx) {
 		return
 	}
 	n := c.Pick(250, 4000)
+	hangs := 0
 	for i := 0; i < n; i++ {
 		d := genWc(c)
 		cl, il := evalWc(d)
@@ -355,6 +356,12 @@ func runWc(c *Ctx) {
 		}
 		if dup && len(sets) > 1 {
 			c.Distinct(cl)
+		}
+		if il == "hang" {
+			if hangs++; hangs >= 3 {
+				c.Hit("stopped-after-3-hangs")
+				break
+			}
 		}
 	}
 }
